@@ -77,6 +77,7 @@ class IncMachine(RuleBasedStateMachine):
         self.built_closure = {}  # tu -> snapshot of closure at last compile
         self.counter = 0
         self.nbuilds = 0
+        self.gen = set()         # units whose source is itself generated
         self.pch = None          # header precompiled and force-included
         self.objnames = None     # explicit object names
         self.nontrivial = False
@@ -138,7 +139,7 @@ class IncMachine(RuleBasedStateMachine):
                 L.append('#error deliberately broken')
             L.append('int tu_{}(void) {{ return {}{}; }}'.format(
                 self.tus.index(f), self.ver[f], calls))
-        p = os.path.join(self.src, f)
+        p = os.path.join(self.src, f + ('.in' if f in self.gen else ''))
         sandbox.write_file(p, '\n'.join(L) + '\n')
         self.rev[f] = self.rev.get(f, 0) + 1
         self.stamp(p)
@@ -183,6 +184,10 @@ class IncMachine(RuleBasedStateMachine):
                 unique=True)) if headers else []
             for t in self.tus:
                 self.includes[t] = [PCH] + self.includes[t]
+        if data.draw(st.integers(0, 2)) == 0:
+            # the last unit is produced by a build step (a copy of a
+            # template) and compiled from the build directory
+            self.gen = {self.tus[-1]}
         self.objnames = [data.draw(st.sampled_from(OBJ_NAMES)).format(i)
                          for i in range(ntu)]
         if data.draw(st.integers(0, 2)) == 0:
@@ -199,7 +204,8 @@ class IncMachine(RuleBasedStateMachine):
                              {h: self.includes[h] for h in headers +
                               ([PCH] if self.pch else [])},
                              {t: self.includes[t] for t in self.tus},
-                             {'pch': self.pch, 'objnames': self.objnames}])
+                             {'pch': self.pch, 'objnames': self.objnames,
+                              'gen': sorted(self.gen)}])
 
     def write_main_and_script(self):
         n = len(self.tus)
@@ -219,8 +225,17 @@ class IncMachine(RuleBasedStateMachine):
             L.append('pch = precompiled_header(file={!r})'.format(self.pch))
             kw = ', pch=pch'
         names = self.objnames or ['obj{}'.format(i) for i in range(n)]
-        L += ["o{} = object_file({!r}, file={!r}{})".format(i, names[i], t, kw)
-              for i, t in enumerate(self.tus)]
+        for i, t in enumerate(self.tus):
+            if t in self.gen:
+                L.append("g{0} = build_step({1!r}, cmd=['cp', build_step.input, "
+                         "build_step.output], files=[{2!r}])".format(
+                             i, 'g_' + t, t + '.in'))
+                L.append("o{} = object_file({!r}, file=g{}, includes=["
+                         "header_directory('.')]{})".format(i, names[i], i,
+                                                           kw))
+            else:
+                L.append("o{} = object_file({!r}, file={!r}{})".format(
+                    i, names[i], t, kw))
         L.append("executable('prog', ['main.c'] + [{}])".format(
             ', '.join('o{}'.format(i) for i in range(n))))
         b = os.path.join(self.src, 'build.bfg')
@@ -239,7 +254,7 @@ class IncMachine(RuleBasedStateMachine):
         i = data.draw(st.integers(0, len(self.tus) - 1))
         old = self.tus[i]
         new = old[:-2] + suffix + '.c'
-        if new in self.ver or len(new) > 20:
+        if new in self.ver or len(new) > 20 or old in self.gen:
             return
         if old in self.failed_compile and self.backend == 'make' and \
                 self._vf_rec.is_open(KF_SOURCE):
@@ -358,6 +373,9 @@ class IncMachine(RuleBasedStateMachine):
                     for a in e['argv']]
             if '-c' in argv:
                 srcf = os.path.relpath(argv[argv.index('-c') + 1], self.src)
+                if os.path.basename(srcf).startswith('g_') and \
+                        os.path.basename(srcf)[2:] in self.gen:
+                    srcf = os.path.basename(srcf)[2:]
                 if srcf != self.pch:
                     out.append(srcf)
         return out
@@ -470,6 +488,8 @@ class IncMachine(RuleBasedStateMachine):
             extra = set()
             if self.pch:
                 extra.add('precompiled-header')
+            if self.gen:
+                extra.add('generated-unit')
             if any(n != 'obj{}'.format(i)
                    for i, n in enumerate(self.objnames or [])):
                 extra.add('special-object-name')
@@ -515,6 +535,7 @@ def replay(task, case, rec):
                 tus, hinc, tinc = h[1], h[2], h[3]
                 if len(h) > 4:
                     m.pch, m.objnames = h[4]['pch'], h[4]['objnames']
+                    m.gen = set(h[4].get('gen', []))
                 os.makedirs(m.src)
                 m.clock = sandbox.Clock(m.tmp)
                 m.tus = list(tus)
@@ -602,8 +623,35 @@ def _run_scale(rec, seed, budget, shard, nshards, sizes):
     """The same model on projects with many translation units (anything
     that batches, folds or truncates long lists shows only here)."""
     jobs = [(b, n) for n in sizes for b in ('make', 'ninja')]
-    for k, (backend, n) in enumerate(jobs):
+    # short canonical histories that are always run: a header reached only
+    # through the precompiled header changes (every compiler flavour), a
+    # generated unit's header changes
+    core = []
+    for backend, compiler in (('make', 'gccw'), ('make', 'clangw'),
+                              ('ninja', 'gccw')):
+        for gen in ([], ['t1.c']):
+            core.append({'backend': backend, 'compiler': compiler, 'history': [
+                ['setup', ['t0.c', 't1.c'],
+                 {'h1.h': [], 'inc/h4.h': [], 'pch.h': ['h1.h']},
+                 {'t0.c': ['pch.h'], 't1.c': ['pch.h', 'inc/h4.h']},
+                 {'pch': 'pch.h', 'objnames': ['obj0', 'obj1'], 'gen': gen}],
+                ['build'], ['modify_header', 'h1.h'], ['build'],
+                ['modify_header', 'inc/h4.h'], ['build'],
+                ['modify_header', 'pch.h'], ['build'], ['build']]})
+    for k, case in enumerate(core):
         if k % nshards != shard:
+            continue
+        rec.case({case['backend'], case['compiler'], 'core-history'},
+                 nontrivial=[case['backend'], case['compiler'],
+                             bool(case['history'][0][4]['gen'])],
+                 sample={'backend': case['backend'],
+                         'compiler': case['compiler'], 'core': True})
+        try:
+            replay('scale', case, rec)
+        except Violation as v:
+            rec.fail('core/' + v.key, v.message, case)
+    for k, (backend, n) in enumerate(jobs):
+        if (k + len(core)) % nshards != shard:
             continue
         tus = ['t{}.c'.format(i) for i in range(n)]
         case = {'backend': backend, 'compiler': 'gccw', 'history': [
